@@ -223,6 +223,41 @@ class Case:
         if p._inqueue._reader.poll(0):
             p._inqueue._reader.recv()
 
+    def ev_applyq(self, soft=None, hard=None, lost=None, slot=None):
+        """apply_async as a pool WITH helper threads runs it: the task is queued for the task handler
+        (the next `feed` event sends it, or fails to)"""
+        p = self.pool
+        started = p._timeout_handler_started
+        p._timeout_handler_started = True      # the harness is the scanner: no real thread is started
+        p.threads = True
+        try:
+            return self.ev_apply(soft, hard, lost, slot)
+        finally:
+            p.threads = False
+            p._timeout_handler_started = started
+
+    def ev_apply_unsendable(self, slot=None):
+        """apply_async on this pool (no helper threads) when the write to the pipe raises"""
+        p = self.pool
+        wait = p.putlocks if slot is None else slot
+        if p._state == bp.RUN and wait and p._putlock is not None and p._putlock._value == 0:
+            return 'Blocked'
+        real = p._quick_put
+
+        def failing(task):
+            raise ValueError('scripted put failure')
+        p._quick_put = failing
+        njobs = len(self.jobs)
+        try:
+            r = p.apply_async(abs, (1,), waitforslot=slot)
+        finally:
+            p._quick_put = real
+        if r is not None:
+            self.new_cb()
+            self.jobs.append(r)
+            return 'Accepted'
+        return 'Refused'
+
     def ev_map(self, n, cs):
         p = self.pool
         if p._state != bp.RUN:
@@ -495,7 +530,7 @@ class Case:
         self.sig_seen = len(SIGNALS)
         return dict(ret=ret, exc=exc, jobs=jobs, workers=workers, nprocs=p._processes,
                     sem=[p._putlock._value, p._putlock._initial_value], R=p.restart_state.R,
-                    sigs=sigs, state=p._state, now=CLOCK[0])
+                    sigs=sigs, state=p._state, now=CLOCK[0], ncache=len(p._cache))
 
     def run_gen(self, gen):
         """state-aware generation: returns (events, observations)"""
